@@ -431,7 +431,7 @@ def replay(mod, path):
 # second seed.  A requested seed outside the pool is therefore mapped onto the pool; VERIF_SEED_RAW=1 (the
 # maintainer's sweeps of new seeds) switches the mapping off.
 QUICK_SEED_POOL = (0, 1, 11, 12, 13, 14)
-THOROUGH_SEED_POOL = (0, 1)
+THOROUGH_SEED_POOL = (0,)
 
 
 def effective_seed(tier, requested):
